@@ -162,7 +162,12 @@ func chainsTo(p *core.Prog, f *core.Fn, e ast.Expr, at token.Pos, seen map[*core
 
 // exportTransformerPairing is clause (1) of C08; C09 includes it because a table store that skips the session-kind
 // rewrites advertises routes without prepend / next-hop-self / ORIGINATOR_ID / OTC.
-func exportTransformerPairing(c *core.Ctx) {
+func exportTransformerPairing(c *core.Ctx) { exportTransformerPairingOf(c, "") }
+
+// exportTransformerPairingOf restricts the clause to the transformers whose name contains only (all of them for "").
+// C10 runs it for the export policy alone: the removal must look the path up (and release its identifier) under the key the
+// policy produced; the other two transformers are C08's (their removal-side gaps are the recorded C08 finding).
+func exportTransformerPairingOf(c *core.Ctx, only string) {
 	p := c.P
 	rtF := p.Field(outPkg, "AdjRIBOut", "rt")
 	if rtF == nil {
@@ -171,10 +176,14 @@ func exportTransformerPairing(c *core.Ctx) {
 	}
 	var want []string
 	for _, n := range exportTransformers {
-		want = append(want, n)
+		if only == "" || strings.Contains(n, only) {
+			want = append(want, n)
+		}
 	}
 	sort.Strings(want)
-	c.Floor("export-transformers-paired", 6)
+	if only == "" {
+		c.Floor("export-transformers-paired", 6)
+	}
 	for _, f := range p.MethodsOf(outPkg, "AdjRIBOut") {
 		if f.Decl.Body == nil {
 			continue
